@@ -288,3 +288,9 @@ func (d *Dialer) Dial(network, addr string) (net.Conn, error) {
 func TLSDialWithDialer(d *Dialer, network, addr string, cfg *tls.Config) (net.Conn, error) {
 	return nil, errors.New("vnet: TLS is not modelled")
 }
+
+// PeerClosed reports whether the other end has been closed locally by its owner.
+func (c *Conn) PeerClosed() bool { return c.peer.closed }
+
+// Broken reports whether the connection was cut.
+func (c *Conn) Broken() bool { return c.broken }
